@@ -122,15 +122,15 @@ func Decode(reader io.Reader, values ...interface{}) (err error) {
 				return errors.WithMessage(err, "reading length of binary data")
 			}
 
-			// Nothing to be decoded when length is zero.
-			if length == 0 {
-				break
-			}
-
+			// Empty data is not read from the stream, but it is still handed to
+			// the unmarshaler: a type that cannot be empty must get the chance to
+			// reject it instead of silently staying at its zero value.
 			var data ByteSlice = make([]byte, length)
-			err = data.Decode(reader)
-			if err != nil {
-				return errors.WithMessage(err, "reading binary data")
+			if length != 0 {
+				err = data.Decode(reader)
+				if err != nil {
+					return errors.WithMessage(err, "reading binary data")
+				}
 			}
 
 			err = v.UnmarshalBinary(data)
